@@ -170,6 +170,7 @@ class LumpSystem:
             ev.append({"op": "merge", "J": [[n - 1, 0]]})
         for s in all_subsets(n, 1, n - 1):
             ev.append({"op": "delete", "S": s})
+        ev.append({"op": "delete", "S": []})          # deleting nothing still re-sets the diagonal
         self._events = ev
 
     # -- explorer interface
@@ -398,9 +399,9 @@ def cam_case(case):
     surf = coo_array((2.0 + (rows * cols) % 5, (rows, cols)), shape=(n, n))
     vol = 1.0 + np.arange(n) % 4
     sq = SQRA(energies=E, volumes=vol, distances=dist.tocsr(), surfaces=surf.tocsr())
-    M0 = base_matrix(n, "asym")
+    M0 = base_matrix(n, case.get("base", "asym"))
     Q = csr_array(M0)
-    key = f"C13|cut_and_merge|n={n}|E={case['ename']}|lower={case['lower']}|upper={case['upper']}"
+    key = f"C13|cut_and_merge|n={n}|base={case.get('base', 'asym')}|E={case['ename']}|lower={case['lower']}|upper={case['upper']}"
     vs = []
     try:
         R, idx = sq.cut_and_merge(Q, T=T, lower_limit=case["lower"], upper_limit=case["upper"])
@@ -459,6 +460,9 @@ def cam_cases(tier):
                 for upper in (None, 10.0, 0.0, -1e9 if False else 1e9):
                     for T in (273.0, 310.0):
                         cases.append({"n": n, "ename": ename, "energies": f(n), "lower": lower, "upper": upper, "T": T})
+                        if T == 273.0:
+                            cases.append({"n": n, "ename": ename, "energies": f(n), "lower": lower, "upper": upper, "T": T,
+                                          "base": "sym"})
     return cases
 
 
